@@ -525,6 +525,12 @@ def render(sk):
     o.append(",\n".join("    (%s, %s)" % (lean_str(c), lean_list(["(%s, %s)" % (lean_str(a), lean_str(b)) for a, b in l]))
                         for c, l in sk["dispatch"]))
     o.append("  ]")
+    consts = []
+    for _c, l in sk["dispatch"]:
+        for a, _b in l:
+            if a.startswith("const:") and a not in consts:
+                consts.append(a)
+    o.append("  consts := " + lean_list([lean_str(c) for c in consts]))
     o.append("  gens := [\n" + gens(sk["gens"]) + "]")
     o.append("  roots := [\n" + gens(sk["roots"]) + "]")
     o.append("  wrapperSites := [" + ", ".join(fsite(s) for s in sk["wrapper"]) + "]")
